@@ -9,7 +9,7 @@ from ..lang import UserErr, exc_desc
 ID = "C13"
 LEVEL = "exploration"
 RULE = (
-    "seeded sequential call histories (length 6-30) over small key spaces against alru_cache (function and method; "
+    "seeded sequential call histories (length 6-30) over small key spaces (in 30% of them different keys with EQUAL hashes: -1 / -2) against alru_cache (function and method; "
     "maxsize 1-4; default key and a custom key_fn; also ONE alru_cache(...) decorator object applied to two functions, which keep separate caches and capacities), acached_per_instance (1-3 instances, instances dropped and "
     "garbage-collected mid-history, two different keys awaited in one yield) and alazy_constant (ttl 0 / >0 with a "
     "scripted clock assigned to asynq.tools.utime, dirty()); every call uses one of 6 spellings of the same arguments "
@@ -484,6 +484,8 @@ def run_lazy(hist, env, stats):
 
 
 KEYS = [(1, 2, 3), (1, 5, 3), (2, 2, 3), (1, 2, 7), (3, 2, 3), (2, 5, 7), (4, 2, 3)]
+# different arguments whose tuples HASH alike: hash(-1) == hash(-2)
+COLLIDING_KEYS = [(-1, 2, 3), (-2, 2, 3), (1, -1, 3), (1, -2, 3), (-1, -2, 3), (-2, -1, 3)]
 
 
 def make_history(rnd, kind):
@@ -501,6 +503,8 @@ def make_history(rnd, kind):
         return {"ttl": ttl, "ops": ops}
     nkeys = rnd.randint(2, 5)
     keys = rnd.sample(KEYS, nkeys)
+    if rnd.random() < 0.3:
+        keys = rnd.sample(COLLIDING_KEYS, nkeys)
     ninst = rnd.randint(1, 3) if kind in ("lru_method", "per_instance") else (2 if kind.startswith("lru_shared_deco") else 1)
     ops = []
     for _ in range(rnd.randint(6, 30)):
